@@ -16,10 +16,15 @@ from hippolyzer.lib.base.datatypes import *
 class HippoLLSDBaseFormatter(base_llsd.base.LLSDBaseFormatter):
     UUID: callable
     ARRAY: callable
+    BINARY: callable
 
     def __init__(self):
         super().__init__()
         self.type_map[UUID] = self.UUID
+        # The formatters dispatch on the exact type, these are the `bytes` subclasses
+        # messages parsed off the wire are full of. They're LLSD binary like any other bytes.
+        self.type_map[JankStringyBytes] = self.BINARY
+        self.type_map[RawBytes] = self.BINARY
         self.type_map[Vector2] = self.TUPLECOORD
         self.type_map[Vector3] = self.TUPLECOORD
         self.type_map[Vector4] = self.TUPLECOORD
